@@ -33,7 +33,7 @@ Lemma pi_table_complete : map (fun r => fst (fst r)) pi_table = oct256.
 Proof. vm_compute. reflexivity. Qed.
 
 (* the model reproduces every row; the octet written back keeps exactly the bits in [keep] *)
-Lemma deliver_flags_table_ok : forallb (flag_row_ok fs_DeliverFlags 63) deliver_flags_table = true.
+Lemma deliver_flags_table_ok : forallb (flag_row_ok fs_DeliverFlags 255) deliver_flags_table = true.
 Proof. vm_compute. reflexivity. Qed.
 Lemma submit_flags_table_ok : forallb (flag_row_ok fs_SubmitFlags 255) submit_flags_table = true.
 Proof. vm_compute. reflexivity. Qed.
@@ -54,13 +54,13 @@ Definition submit_row_spec (row : N * list N * N) : bool :=
 Lemma submit_flags_table_spec : forallb submit_row_spec submit_flags_table = true.
 Proof. vm_compute. reflexivity. Qed.
 
-(* SMS-DELIVER (9.2.2.1): TP-MMS bit 2 and TP-SRI bit 5 are where the standard puts them; the
-   fields called ReplyPath / UDHIndicator read bits 3 / 4, and bits 6 (TP-UDHI) and 7 (TP-RP) are
-   in no field: the octet written back is b with bits 6 and 7 cleared (D24). *)
+(* SMS-DELIVER (9.2.2.1) after the D24 fix: TP-MMS bit 2, TP-SRI bit 5, TP-UDHI bit 6 (field TPUDHI) and
+   TP-RP bit 7 (field TPRP) are where the standard puts them; the fields called ReplyPath / UDHIndicator
+   read bits 3 / 4 (not used in SMS-DELIVER; TestFlags pins them there).  All eight bits are written back. *)
 Definition deliver_row_spec (row : N * list N * N) : bool :=
   let '(b, vals, c) := row in
-  beq_list N.eqb vals [2 * (b mod 4); (b / 4) mod 2; (b / 8) mod 2; (b / 16) mod 2; (b / 32) mod 2]
-  && (c =? b mod 64).
+  beq_list N.eqb vals [2 * (b mod 4); (b / 4) mod 2; (b / 8) mod 2; (b / 16) mod 2; (b / 32) mod 2; (b / 64) mod 2; (b / 128) mod 2]
+  && (c =? b).
 Lemma deliver_flags_table_spec : forallb deliver_row_spec deliver_flags_table = true.
 Proof. vm_compute. reflexivity. Qed.
 
@@ -81,9 +81,9 @@ Theorem first_octet_tables :
   (* SMS-SUBMIT: all 256 octets are decoded to the standard's bit fields and written back unchanged *)
   (forall b, b < 256 -> exists vals, In (b, vals, b) submit_flags_table /\
       vals = [2 * (b mod 4); (b / 4) mod 2; (b / 8) mod 4; (b / 32) mod 2; (b / 64) mod 2; (b / 128) mod 2]) /\
-  (* SMS-DELIVER: written back without bits 6 and 7, hence unchanged exactly for b < 64 *)
-  (forall b, b < 256 -> exists vals, In (b, vals, b mod 64) deliver_flags_table /\
-      vals = [2 * (b mod 4); (b / 4) mod 2; (b / 8) mod 2; (b / 16) mod 2; (b / 32) mod 2]).
+  (* SMS-DELIVER: likewise, all eight bits *)
+  (forall b, b < 256 -> exists vals, In (b, vals, b) deliver_flags_table /\
+      vals = [2 * (b mod 4); (b / 4) mod 2; (b / 8) mod 2; (b / 16) mod 2; (b / 32) mod 2; (b / 64) mod 2; (b / 128) mod 2]).
 Proof.
   split; intros b Hb.
   - destruct (table_row_in _ b submit_flags_table_complete Hb) as [v [c Hin]].
@@ -96,9 +96,34 @@ Proof.
     exists v. split; [exact Hin|]. apply beq_nlist_eq. exact H1.
 Qed.
 
-(* D24 witness on the table: first octet 0x40 (TP-UDHI) of an SMS-DELIVER is written back as 0x00 *)
-Lemma deliver_first_octet_refuted : exists vals, In (64, vals, 0) deliver_flags_table.
-Proof. eexists. vm_compute. do 64 right. left. reflexivity. Qed.
+(* D24 (repaired): the struct before the fix had five fields; first octet 0x40 (TP-UDHI) was written back as 0x00 *)
+Definition deliver_fields_legacy : list (string * fbit) :=
+  [("MessageType"%string, FbMT); ("MoreMessagesToSend"%string, FbBool); ("ReplyPath"%string, FbBool);
+   ("UDHIndicator"%string, FbBool); ("StatusReportIndication"%string, FbBool)].
+Lemma deliver_first_octet_legacy_refuted :
+  marshal_flags deliver_fields_legacy (unmarshal_flags deliver_fields_legacy 64 0) 0 = 0 /\
+  marshal_flags (fs_fields fs_DeliverFlags) (unmarshal_flags (fs_fields fs_DeliverFlags) 64 0) 0 = 64.
+Proof. split; vm_compute; reflexivity. Qed.
+
+(* ------------------------------------------------------------------ data coding scheme -> TP-UDL unit *)
+(* row = (d, Marshal wrote 7 of 8 user-data octets under DCS d): the code against the model against GSM 03.38 section 4 *)
+Definition dcs_row_ok (row : N * bool) : bool :=
+  let '(d, c) := row in Bool.eqb c (counts_septets d) && Bool.eqb c (dcs_counts_septets d).
+Lemma dcs_table_complete : map fst dcs_table = oct256.
+Proof. vm_compute. reflexivity. Qed.
+Lemma dcs_table_ok : forallb dcs_row_ok dcs_table = true.
+Proof. vm_compute. reflexivity. Qed.
+Lemma dcs_model_sweep : forallb (fun d => Bool.eqb (counts_septets d) (dcs_counts_septets d)) oct256 = true.
+Proof. vm_compute. reflexivity. Qed.
+Lemma dcs_model d : d < 256 -> counts_septets d = dcs_counts_septets d.
+Proof. intros Hd. apply Bool.eqb_prop. exact (sweep_oct _ dcs_model_sweep d Hd). Qed.
+Theorem dcs_table_spec : forall d, d < 256 -> In (d, dcs_counts_septets d) dcs_table.
+Proof.
+  intros d Hd. pose proof (oct256_spec d Hd) as Hin. rewrite <- dcs_table_complete in Hin.
+  apply in_map_iff in Hin. destruct Hin as [[d' c] [E Hin]]. cbn in E. subst d'.
+  pose proof dcs_table_ok as H. rewrite forallb_forall in H. specialize (H _ Hin). cbn in H.
+  apply andb_true_iff in H. destruct H as [_ H]. apply Bool.eqb_prop in H. subst c. exact Hin.
+Qed.
 
 (* ------------------------------------------------------------------ relative validity period *)
 (* row = (b, whole seconds, nanosecond remainder, octet written back) *)
